@@ -461,3 +461,35 @@ func (g *gen) block(kind string, ref *refState, older []*refState) ([]Op, *refSt
 	g.ref.endBlock()
 	return g.ops, g.ref
 }
+
+// collideBlock: one account gets a storage trie of 40 fresh slots (its root is a
+// branch node with hashed children) and several other accounts get, as contract
+// code, exactly the encoded root node of that storage trie (nodeOf computes it
+// with the real code on a scratch store). Code blobs are stored under
+// keccak(code) in the same key space as trie nodes, so blob and node collide.
+func (g *gen) collideBlock(ref *refState, nodeOf func(map[string][]byte) []byte) ([]Op, *refState) {
+	g.ref, g.ops, g.snaps = ref, nil, nil
+	a := g.randAddr()
+	slots := map[string][]byte{}
+	for i := 0; i < 40; i++ {
+		k := make([]byte, 32)
+		g.rng.Read(k)
+		slots[string(k)] = g.randVal(40, 80)
+	}
+	blob := nodeOf(slots)
+	// deploy first, write the storage afterwards (the order inside the block does
+	// not decide which of the two reaches the node cache first: Commit ranges a map)
+	n := 3 + g.rng.Intn(6)
+	for i := 0; i < n; i++ {
+		b := g.randAddr()
+		if b != a {
+			g.setCode(b, blob)
+		}
+	}
+	if acc, ok := g.ref.Accts[a]; ok && acc.Suicided {
+		acc.Suicided = false // not reachable: block() ended the previous block
+	}
+	g.makeStorageEqual(a, slots)
+	g.ref.endBlock()
+	return g.ops, g.ref
+}
